@@ -360,7 +360,7 @@ func pageData(r io.Reader, ph *sch.PageHeader, pg Page) ([]byte, error) {
 	switch pg.Codec {
 	case sch.CompressionCodec_SNAPPY:
 		compressed := make([]byte, ph.CompressedPageSize)
-		if _, err := r.Read(compressed); err != nil {
+		if _, err := io.ReadFull(r, compressed); err != nil {
 			return nil, err
 		}
 
@@ -391,7 +391,7 @@ func pageData(r io.Reader, ph *sch.PageHeader, pg Page) ([]byte, error) {
 		}
 	case sch.CompressionCodec_UNCOMPRESSED:
 		data = make([]byte, ph.UncompressedPageSize)
-		if _, err := r.Read(data); err != nil {
+		if _, err := io.ReadFull(r, data); err != nil {
 			return nil, err
 		}
 	default:
